@@ -361,6 +361,42 @@ def run(prog: Program, col: Collector, tier: str, refs: Optional[Refs] = None, c
     col.check(any("interpreter.anf(" in s or "anf(" in s for s in src) and not any("reversed(" in s for s in src), f"{cf.fq}::uses anf order",
               "operations are emitted in anf order (children before parents, root last)", "compile_funsor does not iterate the A-normal form in order", cf.loc())
 
+    # the tracer: the program returns its last value, so the traced root must carry the last id.  Operations are numbered last and
+    # in anf order, which makes an op result the last id - but a function that returns one of its inputs (or a constant) unchanged
+    # has no operation for the root: the writer must test that the root's id is the last one (and reject otherwise)
+    root_names = set()
+    for w in [n for n in ast.walk(tf.node) if isinstance(n, ast.With)]:
+        if any(refs.resolve(i.context_expr.func) == "funsor.ops.op.trace_ops" for i in w.items if isinstance(i.context_expr, ast.Call)):
+            for st in w.body:
+                if isinstance(st, ast.Assign) and isinstance(st.value, ast.Call) and isinstance(st.value.func, ast.Name) and st.value.func.id == tf.positional[0]:
+                    root_names |= {t.id for t in st.targets if isinstance(t, ast.Name)}
+    idmaps = {n.targets[0].value.id for n in ast.walk(tf.node) if isinstance(n, ast.Assign) and isinstance(n.targets[0], ast.Subscript) and isinstance(n.targets[0].value, ast.Name)
+              and isinstance(n.value, ast.Call) and norm(n.value.func) == "len" and n.value.args and norm(n.value.args[0]) == n.targets[0].value.id}
+    guard = None
+    for c in [n for n in ast.walk(tf.node) if isinstance(n, ast.Compare) and len(n.ops) == 1]:
+        sides = [c.left, c.comparators[0]]
+        has_root_id = any(isinstance(x, ast.Subscript) and isinstance(x.value, ast.Name) and x.value.id in idmaps and isinstance(x.slice, ast.Call) and norm(x.slice.func) == "id"
+                          and x.slice.args and norm(x.slice.args[0]) in root_names for x in sides)
+        has_last = any(isinstance(x, ast.BinOp) and isinstance(x.op, ast.Sub) and isinstance(x.left, ast.Call) and norm(x.left.func) == "len" and norm(x.left.args[0]) in idmaps
+                       and isinstance(x.right, ast.Constant) and x.right.value == 1 for x in sides)
+        if has_root_id and has_last:
+            guard = c
+    if not root_names or not idmaps:
+        col.unresolved(f"{tf.fq}::root is last", "traced root / id map not found by role", tf.loc())
+    else:
+        ok = False
+        if guard is not None:
+            st = guard
+            while not isinstance(st, ast.stmt):
+                st = tf.module.parent.get(st)
+            if isinstance(st, ast.Assert) and isinstance(guard.ops[0], ast.Eq):
+                ok = True
+            if isinstance(st, ast.If) and isinstance(guard.ops[0], ast.NotEq) and any(isinstance(x, ast.Raise) for x in st.body):
+                ok = True
+        col.check(ok, f"{tf.fq}::root is last", "the tracer rejects a function whose result is not the last numbered value",
+                  "nothing ensures that the traced root carries the last id: a function returning one of its inputs (lambda x, y: x) is traced to a program that returns "
+                  "the last input instead", tf.loc(guard) if guard is not None else tf.loc())
+
     # ---------------------------------------------------------------- R18.5
     col.rule("R18.5", "unsupported input is rejected, never skipped", floor=4)
     x = lc.positional[0]
